@@ -572,7 +572,7 @@ def probe_lambda(chk: Check):
 def run(chk: Check) -> None:
     rng = chk.rng
     torch.set_num_threads(1)
-    n_cases = 36 if chk.tier == "quick" else 420
+    n_cases = 30 if chk.tier == "quick" else 360
     n_grow = 2 if chk.tier == "quick" else 24
     chk.rule = ("random histories (act with/without mask | learn | Mutations.mutation of each of the five kinds | "
                 "clone with parent and copies kept alive and deciding alternately | save+load three ways) on real NeuralUCB/NeuralTS agents: context dim 2-4, 2-4 arms, "
